@@ -67,7 +67,7 @@ def run(ctx):
         r = g_noprompt.copy_without(cut).reachable_from_entry()
         ctx.check("prompt-respected", wc, not (set(din) & r), "without no_prompt, deletion happens only after the user confirmed")
     # ---- iter_deletables ---------------------------------------------------------------
-    fn, g, where = fn_cfg(ctx, CT, "iter_deletables", roles={"subp": ("for", "tree.extras()")})
+    fn, g, where = fn_cfg(ctx, CT, "iter_deletables", roles={"subp": ("for", "~tree\\.\\w+\\(\\)")})
     ys = [n.id for n in g.nodes if n.kind == "stmt" and isinstance(n.ast, ast.Expr) and isinstance(n.ast.value, ast.Yield)]
     ctx.require(len(ys) >= 3, f"{where}: yields not found")
     hdr = [n for n in g.nodes if n.kind == "for"]
